@@ -89,7 +89,16 @@ pub fn values_for(vt: VT, thorough: bool) -> Vec<Val> {
             }
             v
         }
-        VT::Dur => vec![Val::Dur(d(0, 0)), Val::Dur(d(1, 500_000_000)), Val::Dur(d(0, 999_999)), Val::Dur(d(18_446_744_073, 709_551_615))],
+        VT::Dur => vec![
+            Val::Dur(d(0, 0)),
+            Val::Dur(d(1, 500_000_000)),
+            Val::Dur(d(0, 999_999)),
+            // largest nanosecond count / largest millisecond count that fit in 64 bits, and one more
+            Val::Dur(d(18_446_744_073, 709_551_615)),
+            Val::Dur(d(18_446_744_073, 709_551_616)),
+            Val::Dur(d(18_446_744_073_709_551, 615_999_999)),
+            Val::Dur(d(18_446_744_073_709_551, 616_000_000)),
+        ],
         VT::VU64 => vec![Val::VU64(vec![]), Val::VU64(vec![7]), Val::VU64(vec![0, u64::MAX]), Val::VU64(vec![1, 2, 3])],
         VT::VF64 => vec![Val::VF64(vec![]), Val::VF64(vec![-0.0]), Val::VF64(vec![1.5, 2.25]), Val::VF64(vec![0.1, 1e300, 3.0])],
         VT::VDur => vec![
@@ -97,6 +106,8 @@ pub fn values_for(vt: VT, thorough: bool) -> Vec<Val> {
             Val::VDur(vec![d(2, 0)]),
             Val::VDur(vec![d(0, 1), d(3, 0)]),
             Val::VDur(vec![d(1, 0), d(0, 0), d(0, 999_999_999)]),
+            Val::VDur(vec![d(1, 0), d(18_446_744_073_709_551, 615_000_000)]),
+            Val::VDur(vec![d(18_446_744_073, 709_551_615), d(0, 5)]),
         ],
         VT::None => vec![Val::None],
     }
@@ -119,7 +130,19 @@ fn describe(cfg: &ClientCfg, row: &Row, form: Form, key: &str, val: &Val, steps:
         .set("builder_calls", format!("{:?}", steps))
 }
 
-fn violation(rep: &mut Report, props: Vec<&'static str>, sig: &str, what: String, case: Json) {
+thread_local! {
+    /// properties every violation found by `check_case` is tagged with in addition (set by the numeric engine)
+    pub static ALSO: std::cell::RefCell<Vec<&'static str>> = const { std::cell::RefCell::new(Vec::new()) };
+}
+
+fn violation(rep: &mut Report, mut props: Vec<&'static str>, sig: &str, what: String, case: Json) {
+    ALSO.with(|a| {
+        for p in a.borrow().iter() {
+            if !props.contains(p) {
+                props.push(p);
+            }
+        }
+    });
     rep.violation(Violation {
         props,
         sig: format!("fmt/{}", sig),
